@@ -5,7 +5,8 @@
    dispatch (Call) and one action per piece of loop control between two events:
 
      DoBOL     Operator._mainOperate: interactAllBOL()
-     Call      Operator._interactAll: `halt = halt or interactMethod(args)` for the next interface of the event
+     Call      Operator._interactAll: the hook of the next interface of the event is called and its answer is or-ed into
+               `halt` (the code writes `halt = halt or interactMethod(args)`; see "Where the code departs" below)
      EndBOL    _mainOperate: startingCycle = r.p.cycle; enter `for cycle in range(startingCycle, nCycles)`
      EndBOC    _cycleLoop after interactAllBOC: `if halt: return False` (-> EOL), else first time node
      EndEN     _timeNodeLoop / _performTightCoupling after interactAllEveryNode: coupling off -> next node;
@@ -44,6 +45,12 @@
    * the last node of a cycle keeps the previous stepLength and uses the power fraction of the last step (1 when the
      cycle has no steps), as _cycleLoop's for/else does; both are observations, not clauses of the statement.
    * deferred / excluded: see OperatorStack.tla.
+
+   Where the code departs from this model (reported by the check as violations of the property, not modelled):
+   * `halt = halt or interactMethod(args)` short-circuits: once a hook of an event has returned a true value the hooks of
+     the remaining interfaces of that event are not called (after a halt request at BOC, and after any true return value of
+     another hook, whose value means nothing);
+   * tightCouplingMaxNumIters = 0 with tightCoupling on raises UnboundLocalError in _performTightCoupling.
 *)
 EXTENDS Integers, Sequences, FiniteSets, TLC, Json, SequencesExt, FiniteSetsExt, CycleArithmeticDefs, OperatorStack
 
